@@ -12,6 +12,7 @@ mod c13;
 mod seg;
 mod c08;
 mod c26;
+mod c09;
 mod c10;
 mod c12;
 mod c21;
@@ -55,6 +56,7 @@ fn main() {
         "c14" => c13::run_c14(&mut ctx),
         "c08" => c08::run(&mut ctx),
         "c26" => c26::run(&mut ctx),
+        "c09" => c09::run(&mut ctx),
         "c10" => c10::run(&mut ctx),
         "c12" => c12::run(&mut ctx),
         "c21" => c21::run(&mut ctx),
